@@ -232,7 +232,13 @@ def xedate(start_date, months):
     if date == (1900, 1, 0):
         date = 1900, 1, 1
         dt = 1
-    date = datetime.datetime(*date) + relativedelta(months=months)
+    date = datetime.datetime(*date)
+    try:
+        date = date + relativedelta(months=months)
+    except (OverflowError, ValueError):  # After the year 9999.
+        return Error.errors['#NUM!']
+    if date.year < 1900:  # Before the first date of the calendar.
+        return Error.errors['#NUM!']
     return xdate(date.year, date.month, date.day) - dt
 
 
